@@ -36,7 +36,7 @@ Bids == (IF Contains(Family, "dedicated") THEN SndDedicatedBids ELSE {})
 
 Sites(b) == 1..SndSize(SndTree(b))
 
-ASSUME Mode = "emit" => PrintT(<<"PRELUDE", ToJson(Prelude)>>)
+ASSUME Mode = "emit" => PrintT(<<"PRELUDE", ToJson(SndCommon)>>)
 ASSUME Mode = "emit" => PrintT(<<"MENU", ToJson([kinds |-> SndKinds, bases |-> Cardinality(Bids), prelude_nodes |-> SndPreludeSize])>>)
 
 Init == /\ pc = "start" /\ PInit
@@ -51,7 +51,8 @@ Emit == /\ Mode = "emit" /\ pc = "start" /\ pc' = "done"
            \A a \in 1..Len(alts) :
               /\ Assert(alts[a].kd \in {SndKinds[j] : j \in 1..Len(SndKinds)}, "alternative of an unknown kind")
               /\ PrintT(<<"REPLAY", ToJson([id |-> [b |-> bid, s |-> site, a |-> a], kd |-> alts[a].kd, v |-> alts[a].v,
-                                            pre |-> pre, tops |-> SndPut(root, site, alts[a].n).ss])>>)
+                                            pre |-> pre,
+                                            tops |-> LET t == SndPut(root, site, alts[a].n) IN IF pre THEN t.ss ELSE SndProgram(bid, t)])>>)
         /\ UNCHANGED <<bid, site, ph, written, term>>
 
 ---------------------------------------------------------------------------
